@@ -14,6 +14,7 @@ mod util;
 mod c09;
 mod circuits;
 mod c05;
+mod c12;
 
 fn main() {
     let args: Vec<String> = std::env::args().skip(1).collect();
@@ -32,6 +33,7 @@ fn main() {
         ("c09", "params") => c09::params(),
         ("c09", "record") => c09::record(rest),
         ("c05", "replay") => c05::replay(stdin_lines()),
+        ("c12", "replay") => c12::replay(rest[0].parse().unwrap(), stdin_lines()),
         (p, m) => {
             eprintln!("unknown property/mode {p} {m}");
             std::process::exit(2);
